@@ -5,6 +5,7 @@ mod alloc;
 mod bridge;
 mod case;
 mod catalog;
+mod enumg;
 mod exec;
 mod families_gen;
 mod seams;
@@ -60,6 +61,10 @@ fn real_main(args: Vec<String>) -> i32 {
         "minimise" => cmd_minimise(&args),
         "merge-hashes" => cmd_merge(&args),
         "selfcheck" => cmd_selfcheck(),
+        "enum-blocks" => {
+            println!("{}", enumg::blocks(args[2].parse().unwrap()));
+            0
+        }
         "list" => {
             let cat = catalog::builtin_catalog();
             for e in &cat.entries {
@@ -101,7 +106,7 @@ fn cmd_run(args: &[String]) -> i32 {
             use std::os::unix::fs::FileExt;
             let _ = progress.write_at(format!("{idx:020}\n").as_bytes(), 0);
         }
-        let rs = run_seed(seed, &label, idx);
+        let rs = if engine == "enum" { idx } else { run_seed(seed, &label, idx) };
         stats.run_acc = rs;
         let vs = match run_one(&cat, &engine, &focus, rs, args, &mut stats) {
             Some(v) => v,
@@ -185,6 +190,10 @@ fn run_one(
             skew::run(cat, &cfg, stats, rs)
         }
         "seams" => seams::run(cat, &seams::Config { focus: focus.to_string() }, stats, rs),
+        "enum" => {
+            let max_len = arg(args, "--max-len").map(|x| x.parse().unwrap()).unwrap_or(2);
+            enumg::run(cat, &enumg::Config { max_len }, stats, rs)
+        }
         "zip" => {
             let max_len = arg(args, "--max-len").map(|x| x.parse().unwrap()).unwrap_or(16 << 10);
             let big_len = arg(args, "--big-len").map(|x| x.parse().unwrap()).unwrap_or(192 << 10);
